@@ -278,6 +278,9 @@ BATTERIES['BaseDevice'] = [
   ('mapDevices', 'List.concat (map (fun sh => List.concat (map (fun kr => enc_str (fst (fst kr)) ++ enc_n (snd (fst kr)) ++ enc_v (snd kr)) (@M@.mapDevices_gen leafsQ sh [1; 2; 3; 4; 5; 6; 7; 8; 9; 10; 11; 12] ++ @M@.mapDevices_gen (firstn 3 leafsQ) (3%nat, 4%nat) [1; 2; 3; 4; 5; 6; 7; 8; 9; 10; 11; 12]))) [(6%nat, 2%nat); (6%nat, 1%nat)])'),
   ('get', 'List.concat (map (fun nm => match @M@.get_gen leafsQ nm with Some k => enc_n k | None => [-1] end) ["a"; "b"; "r.a"; "in.b"; "zz"; ""; "e"; "c"]%string)'),
   ('find', 'List.concat (map (fun nm => 99 :: List.concat (map enc_n (@M@.find_gen rm leafsQ nm))) ["r"; "r.in"; "q"; "zz"; ""; "r.a"]%string)'),
+  ('_labelled_sets', 'List.concat (map (fun lb => let r := @M@.labelled_sets_gen (fun pat k => String.eqb pat (String.append ".*" (String.append "a" "$")) && (String.eqb k "r.a" || String.eqb k "r.in.a") || String.eqb pat (String.append ".*" (String.append "b" "$")) && String.eqb k "r.in.b" || String.eqb pat (String.append ".*" (String.append "r.c" "$")) && String.eqb k "r.c")%bool '
+                      '[("r.a", 1); ("r.in.b", 2); ("r.in.a", 3); ("r.a", 4); ("r.c", 5)]%string%nat lb in 77 :: List.concat (map (fun set => 88 :: List.concat (map enc_n set)) (fst r)) ++ 99 :: List.concat (map enc_n (snd r))) '
+                      '[["a"; "b"]; ["b"; "a"]; ["r.c"]; []; ["zz"; "a"]; ["a"; "b"; "r.c"]]%string)'),
 ]
 EXTRA = {'BaseDevice': BASEDEV, 'Loaders': LOADERS, 'Solve': SOLVE, 'Constraints': KIDS + CONS, 'DeviceSet': KIDS, 'MFDeviceSet': KIDS, 'Functions': KIDS}
 NAMES = {'projection': 'Projection', 'thermal': 'Thermal', 'deviceset': 'DeviceSet', 'mfdeviceset': 'MFDeviceSet', 'functions': 'Functions', 'classes': 'Classes', 'storage': 'Storage', 'constraints': 'Constraints', 'solve': 'Solve', 'utils': 'Utils', 'loaders': 'Loaders', 'basedevice': 'BaseDevice'}
